@@ -697,3 +697,42 @@ func ruleNarrowing(r *core.Run, p *core.Prog, m *core.Fn) {
 		r.Undecided(rule, "Marshal:narrowing-sites", p.Rel(m.Decl.Pos()), "no narrowing conversion found in Marshal (the rule's subject disappeared)")
 	}
 }
+
+// ruleRecordedAsGiven: GPDir.WriteBlocks records what it was given. The timestamp, the per-block traffic metadata and the
+// counters are appended / added to the day metadata; a write that cannot be represented is refused later by Marshal's range
+// checks. If WriteBlocks modifies one of its parameters first (clamping, rounding, defaulting), the value that is stored
+// and summed is no longer the value the caller handed in, the refusal can never fire, and "what was accepted is read back"
+// fails for exactly the inputs the modification was written for. Decided: no statement of WriteBlocks assigns to a
+// parameter or to a part of one.
+func ruleRecordedAsGiven(r *core.Run, p *core.Prog) {
+	const rule = "recorded-as-given"
+	f := r.MustFunc(rule, pkgGpfile, "GPDir.WriteBlocks")
+	if f == nil {
+		return
+	}
+	info := f.Info()
+	sig := f.Obj.Type().(*types.Signature)
+	params := map[types.Object]bool{}
+	for i := 0; i < sig.Params().Len(); i++ {
+		params[sig.Params().At(i)] = true
+	}
+	bad := ""
+	core.Walk(f.Decl.Body, true, func(x ast.Node) bool {
+		var lhs []ast.Expr
+		switch s := x.(type) {
+		case *ast.AssignStmt:
+			if s.Tok != token.DEFINE {
+				lhs = s.Lhs
+			}
+		case *ast.IncDecStmt:
+			lhs = []ast.Expr{s.X}
+		}
+		for _, l := range lhs {
+			if o := core.ObjOf(info, rootExpr(ast.Unparen(l))); o != nil && params[o] {
+				bad = fmt.Sprintf("%s: %s is modified before it is recorded: the day metadata then holds a value the caller never handed in, and the range checks of Marshal (which refuse what the format cannot hold) see the modified value", p.Rel(x.Pos()), core.Str(l))
+			}
+		}
+		return true
+	})
+	r.Check(rule, "GPDir.WriteBlocks:parameters-not-modified", p.Rel(f.Decl.Pos()), bad == "", bad)
+}
